@@ -7,6 +7,7 @@
 #define T_PEEK 0
 #define T_PEEK_KIND 0
 #define T_CAPPED 1
+#define T_ITER_FORMS 1
 #define T_PURGE 0
 #define T_HAS_CLEAN 0
 #define T_HAS_CLEAR 0
